@@ -254,10 +254,10 @@ defvjp(
 defvjp(
     anp.linspace,
     lambda ans, start, stop, num: unbroadcast_f(
-        start, lambda g: match_complex(start, anp.dot(anp.linspace(1.0, 0.0, num), g))
+        start, lambda g: match_complex(start, anp.tensordot(anp.linspace(1.0, 0.0, num), g, axes=(0, 0)))
     ),
     lambda ans, start, stop, num: unbroadcast_f(
-        stop, lambda g: match_complex(stop, anp.dot(anp.linspace(0.0, 1.0, num), g))
+        stop, lambda g: match_complex(stop, anp.tensordot(anp.linspace(0.0, 1.0, num), g, axes=(0, 0)))
     ),
 )
 
